@@ -432,8 +432,8 @@ def exec_compositions(ctx, case, check="compositions", count=True):
 
 def _part_compositions(ctx, item):
     seqs, maxlen = item
-    with J.watchdog(600):
-        for specs in seqs:
+    for specs in seqs:
+        with J.watchdog(600):  # per stream (normally well under a second for 14 bytes)
             exec_compositions(ctx, dict(items=specs, mask=None))
     ctx.label("short-streams-all-partitions", n=len(seqs))
 
@@ -720,34 +720,43 @@ def _prefix_bodies(v):
     return sorted({0, max(v - 4, 0), max(v - 5, 0), max(v - 3, 0)} | ({1} if v < 4 else set()))
 
 
-def _part_prefixes(ctx, item):
-    """All 65536 length values, lower and upper case hex, x body lengths {0, n-4, n-5, n-3}."""
+def _prefix_block(ctx, lo, hi):
     P, GPE, _ = _dw()
     n_nt = n_tr = 0
-    with J.watchdog(900):
-        for v in (v for lo, hi in item for v in range(lo, hi)):
-            lower, upper = b"%04x" % v, b"%04X" % v
-            for pre in ((lower, upper) if upper != lower else (lower,)):
-                # upper-case spelling: matching body and one-short body only (cost)
-                for blen in (_prefix_bodies(v) if pre is lower else sorted({max(v - 4, 0), max(v - 5, 0)})):
-                    stream = pre + b"x" * blen
-                    events, terminal = R.parse(stream)
-                    case = dict(stream=stream) if len(stream) < 64 else dict(prefix=pre, body_len=blen)
-                    for dec in ("proto", "rproto", "parser"):
-                        if dec == "proto":
-                            tr = J.ExactReader(stream)
-                            frames, term = J.dec_readloop(P.Protocol(tr.read, None), stream)
-                        elif dec == "rproto":
-                            tr = J.Wire(stream, (), (J.BIG,))
-                            frames, term = J.dec_readloop(P.ReceivableProtocol(tr.recv, None), stream)
-                        else:
-                            tr = J.Wire(stream, (), (J.BIG,))
-                            frames, term = J.dec_parser(P, tr)
-                        J.judge(ctx, "prefix", case, dec, stream, events, terminal, frames, term, tr, GPE)
-                    if v >= 4 and blen != v - 4:
-                        n_nt += 1
+    for v in range(lo, hi):
+        lower, upper = b"%04x" % v, b"%04X" % v
+        for pre in ((lower, upper) if upper != lower else (lower,)):
+            # upper-case spelling: matching body and one-short body only (cost)
+            for blen in (_prefix_bodies(v) if pre is lower else sorted({max(v - 4, 0), max(v - 5, 0)})):
+                stream = pre + b"x" * blen
+                events, terminal = R.parse(stream)
+                case = dict(stream=stream) if len(stream) < 64 else dict(prefix=pre, body_len=blen)
+                for dec in ("proto", "rproto", "parser"):
+                    if dec == "proto":
+                        tr = J.ExactReader(stream)
+                        frames, term = J.dec_readloop(P.Protocol(tr.read, None), stream)
+                    elif dec == "rproto":
+                        tr = J.Wire(stream, (), (J.BIG,))
+                        frames, term = J.dec_readloop(P.ReceivableProtocol(tr.recv, None), stream)
                     else:
-                        n_tr += 1
+                        tr = J.Wire(stream, (), (J.BIG,))
+                        frames, term = J.dec_parser(P, tr)
+                    J.judge(ctx, "prefix", case, dec, stream, events, terminal, frames, term, tr, GPE)
+                if v >= 4 and blen != v - 4:
+                    n_nt += 1
+                else:
+                    n_tr += 1
+    return n_nt, n_tr
+
+
+def _part_prefixes(ctx, item):
+    """All 65536 length values: lower case x body lengths {0, n-4, n-5, n-3}, upper case x {n-4, n-5}."""
+    n_nt = n_tr = 0
+    for lo, hi in item:
+        with J.watchdog(600):  # per block of 256 length values (normally a fraction of a second)
+            a, b = _prefix_block(ctx, lo, hi)
+        n_nt += a
+        n_tr += b
     ctx.case(None, nontrivial=True, n=n_nt, labels=("hex-prefix-exhaustive", "hex-prefix-body-mismatch"))
     ctx.case(None, nontrivial=False, n=n_tr, labels=("hex-prefix-exhaustive",))
 
@@ -1549,14 +1558,14 @@ def run(ctx):
         (_part_compositions, [(allseq[k::ns], maxlen) for k in range(ns)]),
         (_part_prefixes, [blocks[k::ns] for k in range(ns)]),
         (_part_alphabet, [(ns, k) for k in range(ns)]),
-        (_part_roundtrip, [ctx.scale(200, 12000)] * ns),
-        (_part_mutation, [ctx.scale(220, 12000)] * ns),
-        (_part_oversize, [ctx.scale(12, 300)] * ns),
-        (_part_sideband, [ctx.scale(40, 1500)] * ns),
-        (_part_nested, [ctx.scale(60, 2500)] * ns),
-        (_part_caps, [(ctx.scale(100, 5000), ctx.scale(80, 4000))] * ns),
-        (_part_pack, [ctx.scale(60, 3000)] * ns),
-        (_part_rawops, [ctx.scale(150, 8000)] * ns),
+        (_part_roundtrip, [ctx.scale(200, 6000)] * ns),
+        (_part_mutation, [ctx.scale(220, 6000)] * ns),
+        (_part_oversize, [ctx.scale(12, 150)] * ns),
+        (_part_sideband, [ctx.scale(40, 1000)] * ns),
+        (_part_nested, [ctx.scale(60, 1500)] * ns),
+        (_part_caps, [(ctx.scale(100, 3000), ctx.scale(80, 2500))] * ns),
+        (_part_pack, [ctx.scale(60, 2000)] * ns),
+        (_part_rawops, [ctx.scale(150, 5000)] * ns),
         (_part_gitpeer, [(ctx.scale(20, 130), ns, k) for k in range(ns)]),
         (_part_gitadvert, [(ctx.scale(15, 200), ns, k) for k in range(ns)]),
     ]
